@@ -347,13 +347,19 @@ pub fn main(args: &[String]) {
         let dir = work_dir();
         let certs = Certs::generate(&dir, "main").expect("certs");
         let addr = start_server(&certs).expect("server");
-        let client = connect_client(addr, &certs, BackoffStrategy::constant().with_max_attempts(0)).await.expect("client");
-        let raw = RawPeer::connect_trusted(addr, &certs).await.expect("raw peer");
+        let mut client = connect_client(addr, &certs, BackoffStrategy::constant().with_max_attempts(0)).await.expect("client");
+        let mut raw = RawPeer::connect_trusted(addr, &certs).await.expect("raw peer");
+        // every case leaves a few streams open on its connections and QUIC allows 100 concurrent
+        // streams per connection: fresh connections every 20 cases
         if args[0] == "gen" {
             let seed: u64 = args[1].parse().unwrap();
             let n: u64 = args[2].parse().unwrap();
             let mut r = Rng::new(seed ^ 0xc03);
             for i in 0..n {
+                if i > 0 && i % 20 == 0 {
+                    client = connect_client(addr, &certs, BackoffStrategy::constant().with_max_attempts(0)).await.expect("client");
+                    raw = RawPeer::connect_trusted(addr, &certs).await.expect("raw peer");
+                }
                 let cfg = Cfg::random(&mut r);
                 run_case(&client, &raw, seed, i, &cfg, &mut out).await;
             }
@@ -362,6 +368,10 @@ pub fn main(args: &[String]) {
             let mut i = 0;
             for l in text.lines() {
                 if l.starts_with("cfg ") {
+                    if i > 0 && i % 20 == 0 {
+                        client = connect_client(addr, &certs, BackoffStrategy::constant().with_max_attempts(0)).await.expect("client");
+                        raw = RawPeer::connect_trusted(addr, &certs).await.expect("raw peer");
+                    }
                     let cfg = Cfg::parse(l);
                     run_case(&client, &raw, 77, i, &cfg, &mut out).await;
                     i += 1;
